@@ -30,7 +30,16 @@ def vector_reduction_facts(prog, name: str) -> dict:
             if x[0] == "call" and x[1] in (("name", "Vector"), ("name", "Table")):
                 return True
         return False
-    scalar = [e for e in rets if not is_table_recursion(e.term)]
+    from ..symx import flatten_conds
+
+    def table_branch(e) -> bool:
+        """the return is taken only for a 2-D receiver (`self.ndims() == 2`): the per-column recursion, whatever helper does it"""
+        for t, pol in flatten_conds(e.conds):
+            if pol and t[0] == "cmp" and t[1] == "Eq" and ("const", "int", 2) in (t[2], t[3]) \
+                    and any(x[0] == "call" and x[1][0] == "attr" and x[1][2] == "ndims" for x in subterms(t)):
+                return True
+        return False
+    scalar = [e for e in rets if not is_table_recursion(e.term) and not table_branch(e)]
     fn = normalised_function(it, scalar, name)
     return facts_of(fn, "self._underlying")
 
